@@ -1,6 +1,98 @@
 import EupsModel.Drv.Util
+import EupsModel.Model.VersionCmp
 namespace EupsModel.Drv.C10
-open Lean EupsModel EupsModel.Drv
-/-- placeholder until the C10 model exists -/
-def handle : Handler := fun _ => throw "model C10 not built"
+open Lean EupsModel EupsModel.Drv EupsModel.VersionCmp
+
+/-- observable of one comparison: sign, or how it failed -/
+def resCode : Except Err Int → String
+  | .ok r => if r < 0 then "<" else if r > 0 then ">" else "="
+  | .error .unsortable => "U"
+  | .error .malformed => "M"
+  | .error .indexError => "I"
+  | .error .outOfFuel => "F"
+
+def cmpL (pinned strict : Bool) (a b : Except Err Lexed) : Except Err Int :=
+  match a with
+  | .error e => .error e
+  | .ok la => match b with
+    | .error e => .error e
+    | .ok lb => if pinned then cmpLexedPinned strict la lb else cmpLexed strict la lb
+
+partial def lexedToJson : Lexed → Json
+  | .absent => Json.null
+  | .node p s t => Json.mkObj [("prim", ofStr p), ("comps", ofStrs (splitSep p)), ("sec", lexedToJson s), ("ter", lexedToJson t)]
+
+def flag (j : Json) (k : String) : Bool :=
+  match j.getObjVal? k with
+  | .ok (Json.bool b) => b
+  | _ => false
+
+/-- Requests (`"m":"c10"`, `"op"` selects):
+* `cmp`     `{a,b,strict,pinned?}` → `{"r": "<"|"="|">"|"U"|"M"}`
+* `matrix`  `{names:[..],strict,pinned?}` → `{"rows":[one string per name, one character per column], "conv":[..], "conventional":[..]}`
+* `lex`     `{a}` → the split name and the class flags
+* `match`   `{v,expr}` → `{"r": "match"|"nomatch"|"M"|"I", "tokens":[..]}`
+* `latest`  `{names:[..]}` → `{"idx": n | null}` or `{"err": ..}`
+* `stacks` / `stacksboth` (`{"cache":..,"db":..}`)  `{stacks:[[..]..],expr,minver?,db?}` → `{"latest", "latest_min", "preferred": [stack, version] | null | {"err"},
+             "matches": [[stack, version]..] | {"err"}}`; `db`: the database branch (each stack in string order) -/
+def handle : Handler := fun j => do
+  let op ← (← j.getObjVal? "op").getStr?
+  let pinned := flag j "pinned"
+  match op with
+  | "cmp" =>
+    let a ← jstr j "a"
+    let b ← jstr j "b"
+    let strict ← jbool j "strict"
+    let r := if pinned then stdComparePinned strict a b else stdCompare strict a b
+    pure (Json.mkObj [("r", resCode r)])
+  | "matrix" =>
+    let names ← jstrs j "names"
+    let strict ← jbool j "strict"
+    let ls := (names.map lex).toArray
+    let rows := ls.map fun la =>
+      Json.str (String.join (ls.toList.map fun lb => resCode (cmpL pinned strict la lb)))
+    let cls (f : Lexed → Bool) := Json.arr (ls.map fun l => match l with | .ok x => Json.bool (f x) | .error _ => Json.bool false)
+    pure (Json.mkObj [("rows", Json.arr rows), ("conv", cls convLexed), ("conventional", cls conventional)])
+  | "lex" =>
+    let a ← jstr j "a"
+    match lex a with
+    | .error e => pure (Json.mkObj [("err", e.name)])
+    | .ok l => pure (Json.mkObj [("lexed", lexedToJson l), ("conv", convLexed l), ("conventional", conventional l)])
+  | "match" =>
+    let v ← jstr j "v"
+    let e ← jstr j "expr"
+    let toks := ofStrs (tokenize e)
+    match versionMatch v e with
+    | .ok true => pure (Json.mkObj [("r", "match"), ("tokens", toks)])
+    | .ok false => pure (Json.mkObj [("r", "nomatch"), ("tokens", toks)])
+    | .error er => pure (Json.mkObj [("r", resCode (.error er)), ("tokens", toks)])
+  | "latest" =>
+    let names ← jstrs j "names"
+    match latest names with
+    | .error e => pure (Json.mkObj [("err", e.name)])
+    | .ok none => pure (Json.mkObj [("idx", Json.null)])
+    | .ok (some i) => pure (Json.mkObj [("idx", Json.num i)])
+  | "stacks" | "stacksboth" =>
+    let raw ← (← jarr j "stacks").mapM fun st => do
+      (← st.getArr?).toList.mapM fun v => do pure (Str.ofString (← v.getStr?))
+    let e ← jstr j "expr"
+    let minver := match jstrOpt j "minver" with
+      | .ok (some mv) => if mv.isEmpty then none else some mv
+      | _ => none
+    let one (r : Except Err (Option (Nat × Str))) : Json := match r with
+      | .error er => Json.mkObj [("err", er.name)]
+      | .ok none => Json.null
+      | .ok (some (i, v)) => Json.arr #[Json.num i, ofStr v]
+    let answer (stacks : List (List Str)) : Json :=
+      let mat := match matchesAcross e stacks with
+        | .error er => Json.mkObj [("err", er.name)]
+        | .ok l => Json.arr (l.map fun (i, v) => Json.arr #[Json.num i, ofStr v]).toArray
+      Json.mkObj [("latest", one (latestAcross stacks)), ("latest_min", one (latestAcrossMin minver stacks)),
+        ("matches", mat), ("preferred", one (preferredByExpr e stacks))]
+    if op == "stacksboth" then
+      pure (Json.mkObj [("cache", answer raw), ("db", answer (raw.map dbOrder))])
+    else
+      pure (answer (if flag j "db" then raw.map dbOrder else raw))
+  | _ => throw s!"c10: unknown op {op}"
+
 end EupsModel.Drv.C10
